@@ -470,7 +470,7 @@ def evaluate(ctx, cases):
         t0 = _t.time()
         badidx, outs, err = vlib.coq_mismatches(
             ["C26.Model", "C26.Gen"], "run_code %s %s" % ("false" if impl == "py" else "true", coq_prog[impl]),
-            "opt_eqb (pair_eqb N.eqb N.eqb)", coqcases, shard=250)
+            "opt_eqb (pair_eqb N.eqb N.eqb)", coqcases, shard=250 if len(coqcases) < 3000 else 1200)
         tm["coq_compare_" + impl] = round(_t.time() - t0, 1)
         if err:
             ctx.obligation_broken("C26 model evaluation (%s)" % impl, err)
@@ -492,7 +492,7 @@ def evaluate(ctx, cases):
             ctx.sample(dict(impl=impl, n=c["n"], sched=r["sched"], observation=obs))
 
 
-def explore(ctx, n, limit, rng=None, tags=None):
+def explore(ctx, n, limit, rng=None, tags=None, max_seconds=None):
     """Model-free search on the real Python implementation: enumerate the implementation's OWN schedule tree
     (every parked thread is a choice, both outcomes of every f) and evaluate the property on each complete run.
     This is what finds the concrete failing schedule when the implementation no longer follows the model.
@@ -501,7 +501,8 @@ def explore(ctx, n, limit, rng=None, tags=None):
     s = ctx.scratch()
     seed = rng.randrange(1 << 30) if rng is not None else None
     r, p = s.run_worker("c26_worker.py", dict(impl="py", prog=g["prog"], cases=[], timeout=30,
-                                              explore_tree=dict(n=n, limit=limit, seed=seed, tags=tags)), timeout=3600)
+                                              explore_tree=dict(n=n, limit=limit, seed=seed, tags=tags,
+                                                                max_seconds=max_seconds)), timeout=3600)
     if r is None:
         raise RuntimeError("c26 explore worker failed: " + (p.stderr[-2000:] or p.stdout[-500:]))
     t = r["tree"]
@@ -568,18 +569,29 @@ def run(ctx):
     first = [c for c in cases if c["n"] <= 2 or c["impl"] == "c"]
     rest = [c for c in cases if not (c["n"] <= 2 or c["impl"] == "c")]
     evaluate(ctx, first)
+    import time as _t
+    budget = 110 if not ctx.thorough else 540       # seconds of wall time after which optional phases are skipped
+
+    def in_budget(what):
+        if _t.time() - ctx.t0 < budget:
+            return True
+        ctx.extra.setdefault("skipped_for_time", []).append(what)
+        return False
     if not ctx.violations:
         # the implementation's own schedule tree, without the model: all of it for 2 threads, a sample for 3
         explore(ctx, 2, 5000)
     if not ctx.violations:
-        explore(ctx, 3, ctx.n(800, 5000), rng=ctx.rng)
-    if not ctx.violations:
-        # two tags at once: callers 0,1 on one tag, caller 2 (3) on another; the property per tag
-        explore(ctx, 3, ctx.n(300, 1500), rng=ctx.rng, tags=[0, 0, 1])
-        explore(ctx, 4, ctx.n(150, 1000), rng=ctx.rng, tags=[0, 1, 0, 1])
-    if not ctx.violations:
+        # the model's schedules for 3 (and 4) threads on the Python implementation; in thorough all 23430
+        if ctx.thorough and not in_budget("start of 3-thread replay"):
+            rest = rest[:2000]
         evaluate(ctx, rest)
         check_counts(ctx, cases)
+    if not ctx.violations and in_budget("explore 3 threads"):
+        explore(ctx, 3, ctx.n(800, 5000), rng=ctx.rng, max_seconds=ctx.n(40, 120))
+    if not ctx.violations and in_budget("explore two tags"):
+        # two tags at once: callers 0,1 on one tag, caller 2 (3) on another; the property per tag
+        explore(ctx, 3, ctx.n(300, 1500), rng=ctx.rng, tags=[0, 0, 1], max_seconds=ctx.n(20, 60))
+        explore(ctx, 4, ctx.n(150, 1000), rng=ctx.rng, tags=[0, 1, 0, 1], max_seconds=ctx.n(20, 60))
 
 
 MANIFEST = dict(
